@@ -581,3 +581,7 @@
 ; a dynamically typed value
 (define-fun rng_ok ((t cty.Type) (w Any)) Bool
   (or (rfn_ok t w) (and (is_dyn_ty t) ((_ is box<*cty.refinementNullable>) w) (not (= (unbox<*cty.refinementNullable> w) 0)))))
+; num_admits as a declared function (with its definition as an axiom) so that it can trigger the
+; instantiation of relational clauses at call sites
+(declare-fun adm (cty.Value Int Real) Bool)
+(assert (forall ((v cty.Value) (ci Int) (cr Real)) (! (= (adm v ci cr) (num_admits v ci cr)) :pattern ((adm v ci cr)))))
